@@ -600,6 +600,36 @@ def gen_case(r, depth=3, robust=False):
     ns['probe'] = {'f': PROBE_BASE, 'r': None}
     # a sub-template invoked by name, with its own defaults
     sub_blocks = gen_blocks(g, 1, 2)
+    # the sub-template may call itself (the recursion guard is part of what is compared), but not from inside a loop:
+    # a self-call per element, caught and continued at every level, is exponential work for the code and the model alike
+    def no_self_call_in_loops(bs, inside):
+        for b in bs:
+            if not isinstance(b, list) or not b:
+                continue
+            if inside and b[0] in ('var', 'call', 'ret', 'unless', 'in', 'inx', 'with') and isinstance(b[1], list) and \
+                    b[1][:2] == ['n', 'sub0']:
+                b[1] = ['n', 'f']
+            if b[0] == 'cond':
+                for c in b[1]:
+                    if inside and c[0][:2] == ['n', 'sub0']:
+                        c[0] = ['n', 'f']
+                    no_self_call_in_loops(c[1], inside)
+                if b[2]:
+                    no_self_call_in_loops(b[2], inside)
+                continue
+            loop = b[0] in ('in', 'inx')
+            for part in b[1:]:
+                if isinstance(part, list) and part and isinstance(part[0], list):
+                    if b[0] == 'try' and part is b[2]:
+                        for h in part:
+                            no_self_call_in_loops(h[1], inside)
+                    elif b[0] == 'let' and part is b[1]:
+                        for bind in part:
+                            if inside and bind[1][:2] == ['n', 'sub0']:
+                                bind[1] = ['n', 'f']
+                    else:
+                        no_self_call_in_loops(part, inside or loop)
+    no_self_call_in_loops(sub_blocks, False)
     sub_globals = [['p', g.simple_val()], ['subdef', {'s': 'SD'}]] if r.random() < 0.7 else []
     ns['sub0'] = {'T': 1}
     main_blocks = gen_blocks(g, depth, 3)
